@@ -30,58 +30,70 @@ def device_configs(behaviours: list[str]) -> list[tuple[str, bool, str]]:
 TIMINGS = ["late", "first-with-con", "all-with-con"]
 
 
-def run_write(pop: tuple[tuple[str, bool, str], ...], timing: str = "late") -> tuple[list[tuple[str, str]], str]:
+def run_write(pop: tuple[tuple[str, bool, str], ...], timing: str = "late", first: str | None = None) -> tuple[list[tuple[str, str]], str]:
+    """nm_individual_address_write(TARGET) on a bus population; with `first`, an earlier nm_individual_address_write(first) on the
+    SAME XKNX object precedes it (what one call leaves behind in Management must not blind the next), and both calls are judged."""
     viols: list[tuple[str, str]] = []
     devs = [Device(f"dev{i}", a, pm, b, serial=bytes((0, 0, 0, 0, 0, i + 1))) for i, (a, pm, b) in enumerate(pop)]
     progs = [d for d in devs if d.prog_mode]
     for d in progs[: 1 if timing == "first-with-con" else len(progs) if timing == "all-with-con" else 0]:
         d.fast = True
+    outcome = "?"
     with BusWorld(devs) as w:
-        before = [str(d.address) for d in devs]
-        t = w.spawn(nm_individual_address_write(w.xknx, TARGET), name="harness-user")
-        w.loop.run_until(w.loop.time() + 60)
-        if not t.done():
-            return [("procedure-hangs", f"nm_individual_address_write not finished after 60 s; population={devs}")], "hang"
-        exc = texc(t)
-        outcome = "ok" if exc is None else type(exc).__name__
-        if exc is not None and not isinstance(exc, XKNXException):
-            viols.append((exc_sig("procedure-escape", exc), f"{exc!r}; population={pop}"))
-        writes = [tg for _t, tg in w.sent if isinstance(tg.payload, apci.IndividualAddressWrite)]
-        restarts = [tg for _t, tg in w.sent if isinstance(tg.payload, apci.Restart)]
-        # reference, from the statement.  A device that never reacts to a connection attempt is indistinguishable from an absent one.
-        prog = [i for i, (a, pm, b) in enumerate(pop) if pm]
-        holders = [i for i, (a, pm, b) in enumerate(pop) if a == TARGET and b != "silent"]
-        ctxs = f"population={pop} answers={timing} outcome={outcome} writes={[str(tg.payload.address) for tg in writes]} restarts to {[str(tg.destination_address) for tg in restarts]} addresses after={[str(d.address) for d in devs]}"
-        if writes:
-            if len(prog) != 1:
-                viols.append((f"address-written-with-{len(prog)}-devices-in-programming-mode", ctxs))
-            others = [i for i in holders if i not in prog]
-            if others:
-                kinds = sorted({pop[i][2] for i in others})
-                viols.append((f"address-written-although-occupied:{'+'.join(kinds)}", ctxs))
-            if any(tg.payload.address != IndividualAddress(TARGET) for tg in writes):
-                viols.append(("wrong-address-written", ctxs))
-        for tg in restarts:
-            if tg.destination_address != IndividualAddress(TARGET):
-                viols.append(("restart-sent-to-other-address", ctxs))
-        # only devices that answer at the target address can be hit by the restart (with an address conflict that existed before,
-        # every device sharing the address receives it - the procedure cannot tell them apart)
-        for d in devs:
-            if d.restarts and str(d.address) != TARGET:
-                viols.append(("device-at-other-address-restarted", ctxs))
-        # the outcome the statement is about: no new address conflict among devices that are present
-        after = [str(d.address) for d in devs]
-        live = [i for i, (a, pm, b) in enumerate(pop) if b != "silent"]
-        dup_after = {a for a in after if sum(1 for i in live if after[i] == a) > 1}
-        dup_before = {a for a in before if sum(1 for i in live if before[i] == a) > 1}
-        if dup_after - dup_before:
-            viols.append(("address-conflict-created", ctxs))
-        if exc is None:
-            # success means: the one device in programming mode now has the address, and it was restarted
-            if len(prog) != 1 or after[prog[0]] != TARGET:
-                viols.append(("success-reported-without-programmed-device", ctxs))
-        for name, e in [(n, e) for n, e in w.loop.task_failures() if not n.startswith("harness-")]:
-            viols.append((exc_sig("task-exception", e), f"{name}: {e!r}; {ctxs}"))
+        for call, target in enumerate(([first] if first else []) + [TARGET]):
+            # the population as this call finds it
+            cur = tuple((str(d.address), d.prog_mode, d.behaviour) for d in devs)
+            before = [str(d.address) for d in devs]
+            restarts_before = [d.restarts for d in devs]
+            n_sent = len(w.sent)
+            t = w.spawn(nm_individual_address_write(w.xknx, target), name="harness-user")
+            w.loop.run_until(w.loop.time() + 60)
+            if not t.done():
+                return [("procedure-hangs", f"nm_individual_address_write not finished after 60 s; population={devs}")], "hang"
+            exc = texc(t)
+            outcome = "ok" if exc is None else type(exc).__name__
+            if exc is not None and not isinstance(exc, XKNXException):
+                viols.append((exc_sig("procedure-escape", exc), f"{exc!r}; population={cur}"))
+            sent = [tg for _t, tg in w.sent[n_sent:]]
+            writes = [tg for tg in sent if isinstance(tg.payload, apci.IndividualAddressWrite)]
+            restarts = [tg for tg in sent if isinstance(tg.payload, apci.Restart)]
+            # reference, from the statement.  A device that never reacts to a connection attempt is indistinguishable from an absent one.
+            prog = [i for i, (a, pm, b) in enumerate(cur) if pm]
+            holders = [i for i, (a, pm, b) in enumerate(cur) if a == target and b != "silent"]
+            hist = f" after an earlier nm_individual_address_write({first}) on the same XKNX object" if call else ""
+            ctxs = (f"nm_individual_address_write({target}){hist}: population={cur} answers={timing} outcome={outcome} writes={[str(tg.payload.address) for tg in writes]} "
+                    f"restarts to {[str(tg.destination_address) for tg in restarts]} addresses after={[str(d.address) for d in devs]}")
+            tag = ":second-call" if call else ""
+            if writes:
+                if len(prog) != 1:
+                    viols.append((f"address-written-with-{len(prog)}-devices-in-programming-mode{tag}", ctxs))
+                others = [i for i in holders if i not in prog]
+                if others:
+                    kinds = sorted({cur[i][2] for i in others})
+                    viols.append((f"address-written-although-occupied:{'+'.join(kinds)}{tag}", ctxs))
+                if any(tg.payload.address != IndividualAddress(target) for tg in writes):
+                    viols.append((f"wrong-address-written{tag}", ctxs))
+            for tg in restarts:
+                if tg.destination_address != IndividualAddress(target):
+                    viols.append((f"restart-sent-to-other-address{tag}", ctxs))
+            # only devices that answer at the target address can be hit by the restart (with an address conflict that existed before,
+            # every device sharing the address receives it - the procedure cannot tell them apart)
+            for d, r0 in zip(devs, restarts_before):
+                if d.restarts > r0 and str(d.address) != target:
+                    viols.append((f"device-at-other-address-restarted{tag}", ctxs))
+            # the outcome the statement is about: no new address conflict among devices that are present
+            after = [str(d.address) for d in devs]
+            live = [i for i, (a, pm, b) in enumerate(cur) if b != "silent"]
+            dup_after = {a for a in after if sum(1 for i in live if after[i] == a) > 1}
+            dup_before = {a for a in before if sum(1 for i in live if before[i] == a) > 1}
+            if dup_after - dup_before:
+                viols.append((f"address-conflict-created{tag}", ctxs))
+            if exc is None:
+                # success means: the one device in programming mode now has the address, and it was restarted
+                if len(prog) != 1 or after[prog[0]] != target:
+                    viols.append((f"success-reported-without-programmed-device{tag}", ctxs))
+            for name, e in [(n, e) for n, e in w.loop.task_failures() if not n.startswith("harness-")]:
+                viols.append((exc_sig("task-exception", e), f"{name}: {e!r}; {ctxs}"))
     seen: set[str] = set()
     return [(s, d) for s, d in viols if not (s in seen or seen.add(s))], outcome
 
@@ -156,13 +168,17 @@ def run_authorize(free: int, client: int) -> list[tuple[str, str]]:
     return viols
 
 
-def write_cases(thorough: bool) -> list[tuple[tuple[tuple[str, bool, str], ...], str]]:
-    out = []
+def write_cases(thorough: bool) -> list[tuple[tuple[tuple[str, bool, str], ...], str, str | None]]:
+    out: list[tuple[tuple[tuple[str, bool, str], ...], str, str | None]] = []
     for pop in write_pops(thorough):
         nprog = sum(1 for _a, pm, _b in pop if pm)
         # response timing relative to the client's L_Data.con matters only for devices that answer the broadcast read
         for timing in TIMINGS[: 1 if nprog == 0 else 2 if nprog == 1 else 3]:
-            out.append((pop, timing))
+            out.append((pop, timing, None))
+        # history: an earlier call on the same XKNX object, to each pool address (populations of <= 2 devices, thorough 3)
+        if 1 <= len(pop) <= (3 if thorough else 2):
+            for first in ADDRS:
+                out.append((pop, "late", first))
     return out
 
 
@@ -197,17 +213,17 @@ def worker(k: int, n: int, thorough: bool) -> Part:
     part = Part()
     wc = write_cases(thorough)
     for i in range(k, len(wc), n):
-        pop, timing = wc[i]
-        viols, outcome = run_write(pop, timing)
+        pop, timing, first = wc[i]
+        viols, outcome = run_write(pop, timing, first)
         part.evaluations += 1
         part.traces += 1
         part.outcomes["write:" + outcome] += 1
         if len(pop) > 1:
             part.nontrivial += 1
         for s, d in viols:
-            part.viol(s, d, ["write", [list(x) for x in pop], timing], rank=(len(pop), TIMINGS.index(timing), i))
+            part.viol(s, d, ["write", [list(x) for x in pop], timing, first], rank=(len(pop), first is not None, TIMINGS.index(timing), i))
         if i < 2:
-            part.sample(["write", [list(x) for x in pop], timing])
+            part.sample(["write", [list(x) for x in pop], timing, first])
     sc = serial_cases()
     for i in range(k, len(sc), n):
         viols, outcome = run_serial(sc[i])
@@ -230,7 +246,7 @@ def run(ctx: Ctx) -> None:
     ctx.rule = (
         f"the real management procedures over real Management/P2PConnection/CEMIHandler on the virtual loop against a simulated bus of devices (address in {ADDRS}, programming mode on/off, behaviour in "
         f"{BEHAVIOURS}): nm_individual_address_write(1.1.5) on ALL populations of 0..3 devices over all 30 device configurations"
-        f"{' and all 4-device populations over 3 behaviours' if ctx.thorough else ''} x the timing of the devices' answers to the broadcast read (after the client's L_Data.con, or the first / all answers in the same read as the confirmation, i.e. handled before send_broadcast returns) ({len(wc)} buses); the serial-number read/write procedures on 7 bus populations x requested serial x stray responses x answer timing (another serial, from the target "
+        f"{' and all 4-device populations over 3 behaviours' if ctx.thorough else ''} x the timing of the devices' answers to the broadcast read (after the client's L_Data.con, or the first / all answers in the same read as the confirmation, i.e. handled before send_broadcast returns) and, for populations of <= 2 (thorough 3) devices, the same call preceded by an nm_individual_address_write to each pool address on the SAME XKNX object (both calls judged) ({len(wc)} runs); the serial-number read/write procedures on 7 bus populations x requested serial x stray responses x answer timing (another serial, from the target "
         "address, an address response); dmp_authorize2_r_co over ALL 16x16 (free, client) access levels. Oracle: IndividualAddressWrite is broadcast only with exactly one device in programming mode and no "
         "other present device holding the address (a device that never reacts to a connection attempt counts as absent); restarts go only to the target address; no address conflict is created; success only "
         "with the programmed device at the address; serial procedures follow only the requested serial; authorize2 returns min(free, client) and leaves the device at that level."
@@ -241,7 +257,7 @@ def run(ctx: Ctx) -> None:
 
 def replay(case: Any) -> list[tuple[str, str]]:
     if case[0] == "write":
-        return run_write(tuple(tuple(x) for x in case[1]), case[2] if len(case) > 2 else "late")[0]
+        return run_write(tuple(tuple(x) for x in case[1]), case[2] if len(case) > 2 else "late", case[3] if len(case) > 3 else None)[0]
     if case[0] == "serial":
         return run_serial((case[1], tuple((bytes.fromhex(s), a) for s, a in case[2]), bytes.fromhex(case[3]), case[4], case[5] if len(case) > 5 else "late"))[0]
     return run_authorize(case[1], case[2])
